@@ -59,6 +59,26 @@ def lake_build(targets, timeout=1500):
         lock.close()
 
 
+def import_closure(start):
+    """`start` and every Hdl21Model module it imports, directly or not (the files leanchecker re-checks in the thorough tier)"""
+    import re
+
+    seen, todo = [], [start]
+    while todo:
+        m = todo.pop()
+        if m in seen:
+            continue
+        seen.append(m)
+        path = LEAN / (m.replace(".", "/") + ".lean")
+        if not path.exists():
+            continue
+        for line in open(path):
+            mm = re.match(r"import (Hdl21Model\.[\w.]+)", line)
+            if mm:
+                todo.append(mm.group(1))
+    return seen
+
+
 def strip_comments(text):
     """Remove Lean block and line comments (nesting-aware for /- -/)."""
     out, i, depth, n = [], 0, 0, len(text)
